@@ -13,7 +13,8 @@ ASSUME = [
     'trace_atomic_wrt_toggle quantifies over every enable value and every toggle script',
 ]
 
-ACC = ('at', 'ps', 'full', 'empty', 'disc', 'seq', 'open', 'f', 'bs')
+# the public accessors, and the private control flag that makes the packet functions reuse the saved clock sample
+ACC = ('at', 'ps', 'full', 'empty', 'disc', 'seq', 'open', 'f', 'bs', 'uc')
 
 
 def oracle(cs, h, lines):
